@@ -151,6 +151,11 @@ class Gen:
                 if isinstance(x, str):
                     l = [y for y in l if not (isinstance(y, str) and y == x)]      # eqv? of two equal string literals is unspecified in R7RS: keep that out
                 return [S(p), q(x), q(l)]
+            if r.random() < 0.08:
+                # one vector object (a constant or a constructed one) bound once and looked for among list elements: the same object is always found
+                vexpr = r.choice([q(Vec([1, 2])), Vec([1, 2]), [S("vector"), 1, 2], q(Vec([]))])
+                els = [r.choice([S("v"), q(S("a")), 1, q(Vec([1, 2])), [S("vector"), 1, 2]]) for _ in range(r.randint(0, 5))]
+                return [[S("lambda"), [S("v")], [S("list"), [S(p), S("v"), [S("list")] + els], [S("equal?"), [S("list"), 1, S("v")], [S("list"), 1, S("v")]], [S("eqv?"), S("v"), S("v")]]], vexpr]
             if r.random() < 0.15:
                 # procedures as data: the result is looked at through its position only (procedures do not print)
                 ps = [S(n) for n in r.sample(PROCS, r.randint(2, 6))]
